@@ -110,6 +110,13 @@ func (g *FnGen) unknownOf(name string, t types.Type) Val {
 }
 
 func (g *FnGen) safety(sub string, goal, what string, pos token.Pos) {
+	g.safetyX(sub, goal, what, pos, true)
+}
+
+// safetyX: exact = the operation panics exactly when goal is false (index, slice, nil, division ...), so execution
+// continuing past it lets us assume goal. A callee's `may-panic when P` is NOT exact (it may or may not panic under P):
+// nothing is assumed after the call (what a normal return guarantees belongs in the callee's ensures).
+func (g *FnGen) safetyX(sub string, goal, what string, pos token.Pos, exact bool) {
 	// may-panic clauses weaken every safety goal
 	orig := goal
 	for _, mp := range g.fc.MayPanic {
@@ -117,7 +124,7 @@ func (g *FnGen) safety(sub string, goal, what string, pos token.Pos) {
 		goal = fmt.Sprintf("(or %s %s)", env.trBool(mp.E), goal)
 	}
 	g.oblige("safety", g.ordName("safety/"+sub), goal, what, pos)
-	if len(g.fc.MayPanic) > 0 {
+	if len(g.fc.MayPanic) > 0 && exact {
 		// execution continues past this point only when the operation did not panic
 		g.assumeHere(orig)
 	}
@@ -466,6 +473,26 @@ func (g *FnGen) convert(i *ssa.Convert) {
 		if isFloat(to) || isFloat(from) {
 			g.unknown(i)
 			return
+		}
+		if sl, ok := to.Underlying().(*types.Slice); ok && isString(from) {
+			if b, isB := sl.Elem().Underlying().(*types.Basic); isB && b.Kind() == types.Int32 {
+				// []rune(s): a fresh slice holding the rune sequence of s (rune-len / rune-at: uninterpreted decoding)
+				ref := g.allocRef(g.cur)
+				n := "(rune-len " + x.T + ")"
+				z := g.ilit64(0)
+				g.assume(fmt.Sprintf("(and %s %s)", g.sle(z, n), g.sle(n, "(slen "+x.T+")")))
+				g.define(i, fmt.Sprintf("(mk-slice %s %s %s %s)", ref, z, n, n), "Slice")
+				fam, sort := g.elemFam(sl.Elem())
+				h := g.heapGet(g.cur, fam, sort)
+				row := g.fresh("row", fmt.Sprintf("(Array %s %s)", g.idx(), g.isort(32)))
+				k := "cv!k"
+				rv := Val{T: fmt.Sprintf("(rune-at %s %s)", x.T, k), S: g.isort(32), GT: sl.Elem()}
+				g.assume(fmt.Sprintf("(forall ((%s %s)) (! (=> (and %s %s) (and (= (select %s %s) %s) %s)) :pattern ((select %s %s))))",
+					k, g.idx(), g.sle(z, k), g.slt(k, n), row, k, rv.T, g.runeRange(rv.T), row, k))
+				g.heapSet(g.cur, fam, fmt.Sprintf("(store %s %s %s)", h, ref, row))
+				g.note("[]rune(string): the rune sequence of a string is uninterpreted (UTF-8 decoding is not modelled)")
+				return
+			}
 		}
 		if _, ok := to.Underlying().(*types.Slice); ok {
 			// []rune(string) etc.
@@ -892,4 +919,12 @@ func (g *FnGen) floatToInt(x string, to types.Type) string {
 		g.note("float -> integer conversion modelled as an uninterpreted function of the float value")
 	}
 	return fmt.Sprintf("(%s %s)", fn, x)
+}
+
+// runeRange: a decoded rune is a Unicode code point (0 .. 0x10FFFF)
+func (g *FnGen) runeRange(t string) string {
+	if g.mode == "bv" {
+		return fmt.Sprintf("(and (bvsle (_ bv0 32) %s) (bvsle %s (_ bv1114111 32)))", t, t)
+	}
+	return fmt.Sprintf("(and (<= 0 %s) (<= %s 1114111))", t, t)
 }
